@@ -41,7 +41,7 @@ PROPS['C20'] = {
 NOT_APPLICABLE = {}
 
 PROPS['C02'] = {
-    'modules': ['c02', ('c18', ['R18.3']), ('c05', ['A5.8']), ('c03', ['R3.6', 'R3.10', 'R3.11', 'R3.12']), ('c11', ['R11.4']), ('c04', ['K5']), ('c10', ['R10.2'])],
+    'modules': ['c02', ('c18', ['R18.3']), ('c05', ['A5.8']), ('c03', ['R3.6', 'R3.10', 'R3.11', 'R3.12']), ('c11', ['R11.4', 'R11.2']), ('c04', ['K5']), ('c10', ['R10.2'])],
     'level': 'other',
     'quick_configs': ['default'],
     'thorough_configs': ALL,
@@ -237,7 +237,7 @@ PROPS['C12'] = {
 }
 
 PROPS['C05'] = {
-    'modules': ['c05', ('c03', ['R3.8', 'R3.7b', 'R3.11', 'R3.12']), ('c11', ['R11.4', 'R11.1']), ('c04', ['K5'])],
+    'modules': ['c05', ('c03', ['R3.8', 'R3.7b', 'R3.7c', 'R3.11', 'R3.12']), ('c11', ['R11.4', 'R11.1']), ('c04', ['K5'])],
     'level': 'other',
     'quick_configs': ['default'],
     'thorough_configs': ALL,
@@ -266,7 +266,7 @@ PROPS['C05'] = {
 }
 
 PROPS['C08'] = {
-    'modules': ['c08', 'fattype', ('c10', ['R10.2']), ('c17', ['T3b', 'T3']), ('c11', ['R11.4']), ('bits', ['X8', 'X9', 'K6'])],
+    'modules': ['c08', 'fattype', ('c10', ['R10.2', 'R10.8']), ('c17', ['T3b', 'T3']), ('c11', ['R11.4']), ('bits', ['X8', 'X9', 'K6']), ('c04', ['K3'])],
     'level': 'other',
     'quick_configs': ['default'],
     'thorough_configs': ALL,
@@ -326,7 +326,7 @@ PROPS['C15'] = {
 }
 
 PROPS['C01'] = {
-    'modules': ['c15', 'c01', ('c03', ['R3.7', 'R3.7b']), ('c02', ['B5'])],
+    'modules': ['c15', 'c01', ('c03', ['R3.7', 'R3.7b', 'R3.7c']), ('c02', ['B5'])],
     'level': 'other',
     'quick_configs': ['default'],
     'thorough_configs': ALL,
@@ -476,7 +476,7 @@ PROPS['C10'] = {
 }
 
 PROPS['C03'] = {
-    'modules': ['c03', ('c05', ['A5.8']), ('c10', ['R10.4', 'R10.2']), ('c15', ['N7', 'N9']), ('c04', ['K5']), ('c11', ['R11.4']), ('retry', ['R9.9']), ('c02', ['B5', 'B7'])],
+    'modules': ['c03', ('c05', ['A5.8']), ('c10', ['R10.4', 'R10.2']), ('c15', ['N7', 'N9', 'N1']), ('c04', ['K5']), ('c11', ['R11.4']), ('retry', ['R9.9']), ('c02', ['B5', 'B7']), ('c01', ['R1.2', 'R1.10'])],
     'level': 'other',
     'quick_configs': ['default'],
     'thorough_configs': ALL,
@@ -502,7 +502,7 @@ PROPS['C03'] = {
 }
 
 PROPS['C04'] = {
-    'modules': ['c04', 'fattype', ('c14', ['P2', 'P3']), ('siblings', ['SB1', 'SB2']), ('c11', ['R11.4']), ('bits', ['K6']), ('c08', ['X2'])],
+    'modules': ['c04', 'fattype', ('c14', ['P2', 'P3']), ('siblings', ['SB1', 'SB2']), ('c11', ['R11.4', 'R11.1']), ('bits', ['K6']), ('c08', ['X2']), ('c03', ['R3.13'])],
     'level': 'other',
     'quick_configs': ['default'],
     'thorough_configs': ALL,
@@ -530,7 +530,7 @@ PROPS['C04'] = {
 }
 
 PROPS['C11'] = {
-    'modules': ['c11', ('c10', ['R10.4', 'R10.2', 'R10.7']), ('c03', ['R3.8']), ('c20', ['W1', 'W4']), ('c08', ['X2']), 'invariants'],
+    'modules': ['c11', ('c10', ['R10.4', 'R10.2', 'R10.7']), ('c03', ['R3.8']), ('c20', ['W1', 'W4']), ('c08', ['X2']), 'invariants', ('c02', ['B5', 'B7'])],
     'level': 'other',
     'quick_configs': ['default'],
     'thorough_configs': ALL,
@@ -679,6 +679,13 @@ RULE_GLOSSARY = {
     'N5c': 'the case-fold iterator of a character is consumed in full, not cut to its first item',
     'N8': 'a length in UTF-8 bytes is never compared / added to a length in UTF-16 units or chars',
     'B7': 'the cluster remembered after a transfer is the one whose offset went to the device, or is computed from the device count',
+    'R10.8': 'a view of the table region (start right after the reserved sectors) is built only where mirroring / active FAT are looked at',
+    'R11.7': 'code that writes several pieces after one seek is never instantiated on the raw FS adapter (which moves the device after a write)',
+    'A5.9': 'NotEnoughSpace is constructed only by the table scans, never from cached bookkeeping',
+    'T3c': 'every slot that does not end the call is handed to the long-name accumulator or clears it',
+    'W4b': 'a parameter that is an exclusive end cluster number is not handed a plain cluster count',
+    'R3.7c': 'the start of the free-slot run is (re)assigned only when the run is empty (`num_free == 0`) or at the reset on a used slot',
+    'R3.13': 'a function that stores the handle\'s first cluster also stores the directory entry\'s, with the same kind of value',
     'R3.12': 'a cluster is appended after a remembered cluster only where that cluster\'s successor was looked up in the FAT on the way',
     'R10.6': 'set_raw (which overwrites the whole stored word) is called only by set of the same FAT width',
     'R10.7': 'copies written by a slice = constructor argument composed with the write loop count: fats with mirroring, one otherwise',
@@ -701,5 +708,6 @@ RULE_GLOSSARY = {
     'T3.start': 'a slot that starts a run resizes the accumulator before anything is copied into it',
     'W2c': 'the FAT12 scan compares the cluster number with the bound between incrementing it and the next table read',
     'R1.9': 'entry identity (rename onto itself) is decided on the absolute entry position',
+    'R1.10': 'no handle (to_dir / to_file / editor) is made from an entry after its slots were marked deleted',
     'INV.DiskSlice': 'offset <= size and byte counts below 2^48 hold at every construction and are kept by every store (inductive proof; feeds the panic inventories)',
 }
